@@ -703,6 +703,196 @@ def as_constructor_call(n: ast.stmt, where: str) -> tuple[bool, bool]:
     return has_fields, positional
 
 
+def str_const(n: ast.AST) -> str | None:
+    return n.value if isinstance(n, ast.Constant) and isinstance(n.value, str) else None
+
+
+def str_list(n: ast.AST) -> list[str] | None:
+    if isinstance(n, (ast.List, ast.Tuple, ast.Set)) and all(str_const(e) is not None for e in n.elts):
+        return [e.value for e in n.elts]
+    return None
+
+
+class ReprInterpreter:
+    """Interprets the body of a `__repr__` over a small subset: local lists of field names (literals, `append`, possibly under
+    an `if` on self's attributes), the dict of fields (a copy of vars(self), a literal of self attributes, a comprehension
+    over vars(self).items() filtered on the key names), its updates (pop / del / item assignment / update) and the final
+    `representation.as_constructor(self, <dict>, positional=…)`.  The result is the rule (source, steps, positional);
+    statement positions and local names do not matter."""
+
+    def __init__(self, w: World, ci: ClassInfo, where: str):
+        self.w, self.ci, self.where = w, ci, where
+        self.lists: dict[str, list[tuple[str | None, str]]] = {}   # local -> [(condition or None, key)]
+        self.dicts: dict[str, tuple[str, list[str]]] = {}          # local -> (source literal, steps)
+
+    def err(self, msg: str, n: ast.AST | None = None) -> TranslationError:
+        return TranslationError(self.where, msg + (": " + ast.unparse(n)[:100] if n is not None else ""))
+
+    # ---- expressions denoting the dict of fields
+    def dict_expr(self, n: ast.expr) -> tuple[str, list[str]]:
+        u = ast.unparse(n)
+        if u in ("vars(self).copy()", "dict(vars(self))", "{**vars(self)}", "vars(self)"):
+            return ("RVars", [])
+        if isinstance(n, ast.Name) and n.id in self.dicts:
+            src, steps = self.dicts[n.id]
+            return (src, list(steps))
+        if isinstance(n, ast.Dict):
+            ents = []
+            for k, v in zip(n.keys, n.values):
+                if k is None or str_const(k) is None:
+                    raise self.err("non-literal key in fields dict", n)
+                ents.append(f"({q(k.value)}, {pathlit(attr_path(self.w, self.ci, v, self.where))})")
+            return (f"(RDict {clist(ents)})", [])
+        if isinstance(n, ast.DictComp) and len(n.generators) == 1:
+            g = n.generators[0]
+            if (not g.is_async and isinstance(g.target, ast.Tuple) and len(g.target.elts) == 2 and all(isinstance(e, ast.Name) for e in g.target.elts)
+                    and ast.unparse(g.iter) == "vars(self).items()" and isinstance(n.key, ast.Name) and isinstance(n.value, ast.Name)
+                    and n.key.id == g.target.elts[0].id and n.value.id == g.target.elts[1].id):
+                key = g.target.elts[0].id
+                steps: list[str] = []
+                for cond in g.ifs:
+                    steps += self.key_filter(cond, key)
+                return ("RVars", steps)
+        raise self.err("unsupported source of fields", n)
+
+    def key_filter(self, n: ast.expr, key: str) -> list[str]:
+        """`key not in <names>` / `key != "x"` / conjunctions: the keys that are filtered out, as RDrop / RDropIf steps."""
+        if isinstance(n, ast.BoolOp) and isinstance(n.op, ast.And):
+            return [st for v in n.values for st in self.key_filter(v, key)]
+        if isinstance(n, ast.UnaryOp) and isinstance(n.op, ast.Not) and isinstance(n.operand, ast.Compare):
+            c = n.operand
+            if len(c.ops) == 1 and isinstance(c.ops[0], ast.In) and isinstance(c.left, ast.Name) and c.left.id == key:
+                return self.drops(c.comparators[0])
+            if len(c.ops) == 1 and isinstance(c.ops[0], ast.Eq) and isinstance(c.left, ast.Name) and c.left.id == key and str_const(c.comparators[0]) is not None:
+                return [f"RDrop {q(c.comparators[0].value)}"]
+        if isinstance(n, ast.Compare) and len(n.ops) == 1 and isinstance(n.left, ast.Name) and n.left.id == key:
+            if isinstance(n.ops[0], ast.NotIn):
+                return self.drops(n.comparators[0])
+            if isinstance(n.ops[0], ast.NotEq) and str_const(n.comparators[0]) is not None:
+                return [f"RDrop {q(n.comparators[0].value)}"]
+        raise self.err("unsupported filter on the field names", n)
+
+    def drops(self, names: ast.expr) -> list[str]:
+        lit = str_list(names)
+        if lit is not None:
+            entries = [(None, k) for k in lit]
+        elif isinstance(names, ast.Name) and names.id in self.lists:
+            entries = self.lists[names.id]
+        else:
+            raise self.err("unsupported collection of field names", names)
+        return [f"RDrop {q(k)}" if c is None else f"RDropIf {c} {q(k)}" for c, k in entries]
+
+    # ---- statements
+    def simple(self, s: ast.stmt, cond: str | None) -> bool:
+        """A statement that may also appear under `if <condition on self>:`.  Returns False when not recognised."""
+        if isinstance(s, ast.Expr) and isinstance(s.value, ast.Call) and isinstance(s.value.func, ast.Attribute) and isinstance(s.value.func.value, ast.Name):
+            c, obj, meth = s.value, s.value.func.value.id, s.value.func.attr
+            if obj in self.lists and not c.keywords:
+                if meth == "append" and len(c.args) == 1 and str_const(c.args[0]) is not None:
+                    self.lists[obj].append((cond, c.args[0].value))
+                    return True
+                if meth == "extend" and len(c.args) == 1 and str_list(c.args[0]) is not None:
+                    self.lists[obj] += [(cond, k) for k in str_list(c.args[0])]
+                    return True
+            if obj in self.dicts:
+                src, steps = self.dicts[obj]
+                if meth == "pop" and not c.keywords and len(c.args) in (1, 2) and str_const(c.args[0]) is not None:
+                    k = q(c.args[0].value)
+                    if len(c.args) == 1:
+                        steps.append(f"RPop {k}" if cond is None else f"RPopIf {cond} {k}")
+                    else:
+                        steps.append(f"RDrop {k}" if cond is None else f"RDropIf {cond} {k}")
+                    return True
+                if meth == "update" and cond is None:
+                    pairs: list[tuple[str, ast.expr]] = []
+                    if len(c.args) == 1 and isinstance(c.args[0], ast.Dict) and not c.keywords:
+                        for k, v in zip(c.args[0].keys, c.args[0].values):
+                            if k is None or str_const(k) is None:
+                                return False
+                            pairs.append((k.value, v))
+                    elif not c.args and all(k.arg is not None for k in c.keywords):
+                        pairs = [(k.arg, k.value) for k in c.keywords]
+                    else:
+                        return False
+                    for k, v in pairs:
+                        steps.append(f"RSetAttr {q(k)} {pathlit(attr_path(self.w, self.ci, v, self.where))}")
+                    return True
+            return False
+        if isinstance(s, ast.AugAssign) and isinstance(s.op, ast.Add) and isinstance(s.target, ast.Name) and s.target.id in self.lists and str_list(s.value) is not None:
+            self.lists[s.target.id] += [(cond, k) for k in str_list(s.value)]
+            return True
+        if isinstance(s, ast.Delete) and len(s.targets) == 1 and isinstance(s.targets[0], ast.Subscript) and isinstance(s.targets[0].value, ast.Name) \
+                and s.targets[0].value.id in self.dicts and str_const(s.targets[0].slice) is not None:
+            k = q(s.targets[0].slice.value)
+            self.dicts[s.targets[0].value.id][1].append(f"RPop {k}" if cond is None else f"RPopIf {cond} {k}")
+            return True
+        if (cond is None and isinstance(s, ast.Assign) and len(s.targets) == 1 and isinstance(s.targets[0], ast.Subscript) and isinstance(s.targets[0].value, ast.Name)
+                and s.targets[0].value.id in self.dicts and str_const(s.targets[0].slice) is not None):
+            self.dicts[s.targets[0].value.id][1].append(f"RSetAttr {q(s.targets[0].slice.value)} {pathlit(attr_path(self.w, self.ci, s.value, self.where))}")
+            return True
+        return False
+
+    def run(self, body: list[ast.stmt]) -> str:
+        for s in body[:-1]:
+            tgt = val = None
+            if isinstance(s, ast.Assign) and len(s.targets) == 1 and isinstance(s.targets[0], ast.Name):
+                tgt, val = s.targets[0].id, s.value
+            elif isinstance(s, ast.AnnAssign) and isinstance(s.target, ast.Name) and s.value is not None:
+                tgt, val = s.target.id, s.value
+            if tgt is not None:
+                if str_list(val) is not None and not isinstance(val, ast.Set):
+                    self.lists[tgt] = [(None, k) for k in str_list(val)]
+                else:
+                    self.dicts[tgt] = self.dict_expr(val)
+                    self.lists.pop(tgt, None)
+                continue
+            if isinstance(s, ast.If) and not s.orelse:
+                cond = repr_cond(self.w, self.ci, s.test, self.where)
+                if all(self.simple(x, cond) for x in s.body):
+                    continue
+                raise self.err("unsupported conditional statement", s)
+            if self.simple(s, None):
+                continue
+            raise self.err("unsupported statement", s)
+        last = body[-1]
+        if not (isinstance(last, ast.Return) and isinstance(last.value, ast.Call) and ast.unparse(last.value.func) == "representation.as_constructor"):
+            raise self.err("expected `return representation.as_constructor(...)`", last)
+        c = last.value
+        args = list(c.args)
+        positional = False
+        fields_arg = None
+        for k in c.keywords:
+            if k.arg == "positional" and isinstance(k.value, ast.Constant) and isinstance(k.value.value, bool):
+                positional = k.value.value
+            elif k.arg == "fields":
+                fields_arg = k.value
+            else:
+                raise self.err("unsupported keyword", last)  # cast_as is never used by the library's own __repr__
+        if not args or ast.unparse(args[0]) != "self" or len(args) > 2 or (len(args) == 2 and fields_arg is not None):
+            raise self.err("unsupported arguments", last)
+        if len(args) == 2:
+            fields_arg = args[1]
+        if fields_arg is None or (isinstance(fields_arg, ast.Constant) and fields_arg.value is None):
+            src, steps = "RVars", []
+        else:
+            src, steps = self.dict_expr(fields_arg)
+        return f"(RConstructor {src} {clist(canonical_steps(steps))} {'true' if positional else 'false'})"
+
+
+def canonical_steps(steps: list[str]) -> list[str]:
+    """Item assignments commute with the removal of other keys: they are listed first (the order the pinned commit uses),
+    so that equivalent spellings give the same rule."""
+    def key(st: str) -> str:
+        return st.split('"')[-2] if st.startswith("RSetAttr") is False else st.split('"')[1]
+    sets = [st for st in steps if st.startswith("RSetAttr")]
+    others = [st for st in steps if not st.startswith("RSetAttr")]
+    set_keys = {st.split('"')[1] for st in sets}
+    removed = {st.rsplit('"', 2)[-2] for st in others}
+    if set_keys & removed:
+        return steps  # an assigned key is also removed: keep the order of the code
+    return sets + others
+
+
 def repr_rule(w: World, ci: ClassInfo) -> str:
     where0 = f"{ci.module}.py:{ci.qual}.__repr__"
     owner, fn = w.lookup(ci, "__repr__", where0)
@@ -715,43 +905,9 @@ def repr_rule(w: World, ci: ClassInfo) -> str:
         return "RRuleCreate"
     if src == "return f'{Op.class_name(self, qualname=True)}(lambda a, b: ...)'":
         return "RLambdaStub"
-    if len(body) == 1:
-        has_fields, positional = as_constructor_call(body[0], where)
-        if has_fields:
-            raise TranslationError(where, "`fields` used before assignment")
-        return f"(RConstructor RVars [] {'true' if positional else 'false'})"
-    first = body[0]
-    if not (isinstance(first, ast.Assign) and len(first.targets) == 1 and isinstance(first.targets[0], ast.Name) and first.targets[0].id == "fields"):
-        raise TranslationError(where, f"expected `fields = ...` first: {ast.unparse(first)[:80]}")
-    if ast.unparse(first.value) == "vars(self).copy()":
-        src_lit = "RVars"
-    elif isinstance(first.value, ast.Dict):
-        ents = []
-        for k, v in zip(first.value.keys, first.value.values):
-            if not (isinstance(k, ast.Constant) and isinstance(k.value, str)):
-                raise TranslationError(where, "non-literal key in fields dict")
-            ents.append(f"({q(k.value)}, {pathlit(attr_path(w, ci, v, where))})")
-        src_lit = f"(RDict {clist(ents)})"
-    else:
-        raise TranslationError(where, f"unsupported source of fields: {ast.unparse(first.value)}")
-    steps = []
-    for s in body[1:-1]:
-        u = ast.unparse(s)
-        pop = lambda e: (isinstance(e, ast.Expr) and isinstance(e.value, ast.Call) and ast.unparse(e.value.func) == "fields.pop" and len(e.value.args) == 1
-                         and isinstance(e.value.args[0], ast.Constant) and isinstance(e.value.args[0].value, str) and not e.value.keywords)
-        if pop(s):
-            steps.append(f"RPop {q(s.value.args[0].value)}")
-        elif isinstance(s, ast.If) and not s.orelse and len(s.body) == 1 and pop(s.body[0]):
-            steps.append(f"RPopIf {repr_cond(w, ci, s.test, where)} {q(s.body[0].value.args[0].value)}")
-        elif (isinstance(s, ast.Assign) and len(s.targets) == 1 and isinstance(s.targets[0], ast.Subscript) and ast.unparse(s.targets[0].value) == "fields"
-              and isinstance(s.targets[0].slice, ast.Constant) and isinstance(s.targets[0].slice.value, str)):
-            steps.append(f"RSetAttr {q(s.targets[0].slice.value)} {pathlit(attr_path(w, ci, s.value, where))}")
-        else:
-            raise TranslationError(where, f"unsupported statement: {u[:100]}")
-    has_fields, positional = as_constructor_call(body[-1], where)
-    if not has_fields:
-        raise TranslationError(where, "`fields` computed but not passed to as_constructor")
-    return f"(RConstructor {src_lit} {clist(steps)} {'true' if positional else 'false'})"
+    if not body:
+        raise TranslationError(where, "empty body")
+    return ReprInterpreter(w, ci, where).run(body)
 
 
 # --------------------------------------------------------------------------------------------- namespace
@@ -826,7 +982,10 @@ Inductive istmt : Set :=
 Inductive rcond : Set :=
   | RFalsy (attr : list string) | RTruthy (attr : list string) | RIsClose (attr : list string) (c : dtok)
   | REqDefaultResolution (attr : list string) | REqEnum (attr : list string) (cls key : string).
-Inductive rstep : Set := RPop (f : string) | RPopIf (c : rcond) (f : string) | RSetAttr (f : string) (path : list string).
+Inductive rstep : Set :=
+  | RPop (f : string) | RPopIf (c : rcond) (f : string)          (* fields.pop(f): KeyError when absent *)
+  | RSetAttr (f : string) (path : list string)                   (* fields[f] = self.<path> *)
+  | RDrop (f : string) | RDropIf (c : rcond) (f : string).       (* f filtered out of the dict / fields.pop(f, None) *)
 Inductive rsrc : Set := RVars | RDict (entries : list (string * list string)).
 Inductive repr_rule : Set :=
   | RConstructor (src : rsrc) (steps : list rstep) (positional : bool)   (* representation.as_constructor(self, fields, positional=…) *)
@@ -844,9 +1003,32 @@ Record enum_sig : Set := {{ en_name : string; en_module : string; en_by_value : 
 """
 
 
-def generate(w: World) -> tuple[str, list[TranslationError]]:
+BASELINE_PATH = os.path.join(os.path.dirname(os.path.abspath(__file__)), "signatures_baseline.json")
+
+
+def load_baseline() -> dict:
+    """What the translator produced for the pinned commit (written by `--write-baseline`): per class the parameter list,
+    the init program and the __repr__ rule; per enumeration its entry."""
+    try:
+        import json
+
+        return json.load(open(BASELINE_PATH))
+    except (OSError, ValueError):
+        return {"classes": {}, "enums": {}}
+
+
+def soft(where: str, fn: ast.FunctionDef | None, e: TranslationError) -> TranslationError:
+    """A shape that is not recognised is not an error when the pinned commit's rule is known: that rule is kept and the
+    function is reported like an edited pinned function (`source changed (hash …)`), i.e. as a hint to search deeper —
+    the correspondence check (repr / rebuild of real objects against the model) still ties the model to the code."""
+    h = sha(norm_src(fn)) if fn is not None else "?"
+    return TranslationError(where, f"source changed (hash {h}, shape not recognised: {" ".join(e.msg.split())[:200]}): the rule recorded for the pinned commit is used; the correspondence check decides")
+
+
+def generate(w: World, collect: dict | None = None) -> tuple[str, list[TranslationError]]:
     errors: list[TranslationError] = []
     errors += check_pins(w)
+    base = load_baseline() if collect is None else {"classes": {}, "enums": {}}
     classes = []
     enums = []
     unsupported = []
@@ -854,19 +1036,35 @@ def generate(w: World) -> tuple[str, list[TranslationError]]:
         where = f"{ci.module}.py:{qual}"
         try:
             if w.is_enum(ci):
-                info = enum_info(w, ci)
-                if info["key"] is None:
-                    unsupported.append((qual, "enumeration without __repr__ override"))
-                    continue
-                keys = [info["by_name"][n] for n, _ in info["members"]]
-                enums.append(f'{{| en_name := {q(qual)}; en_module := {q(ci.module)}; en_by_value := {"true" if info["key"] == "value" else "false"}; en_keys := {clist(q(str(k)) for k in keys)} |}}')
+                try:
+                    info = enum_info(w, ci)
+                    if info["key"] is None:
+                        unsupported.append((qual, "enumeration without __repr__ override"))
+                        continue
+                    keys = [info["by_name"][n] for n, _ in info["members"]]
+                    entry = f'{{| en_name := {q(qual)}; en_module := {q(ci.module)}; en_by_value := {"true" if info["key"] == "value" else "false"}; en_keys := {clist(q(str(k)) for k in keys)} |}}'
+                except TranslationError as e:
+                    if qual not in base["enums"]:
+                        raise
+                    entry = base["enums"][qual]
+                    errors.append(soft(e.where, ci.methods.get("__repr__"), e))
+                if collect is not None:
+                    collect["enums"][qual] = entry
+                enums.append(entry)
                 continue
             if "." in qual:
                 unsupported.append((qual, "nested class: as_constructor prints __name__, which the package namespace does not bind"))
                 continue
             if w.is_abstract(ci):
                 continue
-            rr = repr_rule(w, ci)
+            b = base["classes"].get(qual)
+            try:
+                rr = repr_rule(w, ci)
+            except TranslationError as e:
+                if b is None:
+                    raise
+                rr = b["repr"]
+                errors.append(soft(e.where, w.lookup(ci, "__repr__", where)[1], e))
             if rr == "RNone":
                 unsupported.append((qual, "no __repr__ override (object.__repr__)"))
                 continue
@@ -876,11 +1074,21 @@ def generate(w: World) -> tuple[str, list[TranslationError]]:
             if fn is None:
                 params, init, has_init = [], [], False
             else:
-                params = signature(w, owner, fn)
-                env = {p: f"(IParam {q(p)})" for p, _, _ in params}
-                init = InitTranslator(w, ci).frame(owner, fn, env)
+                params = signature(w, owner, fn)   # a parameter list that cannot be read stays an error (fail closed)
                 has_init = True
             plits = [f'{{| p_name := {q(p)}; p_default := {"None" if d is None else "Some " + d}; p_kind := {k} |}}' for p, d, k in params]
+            if fn is not None:
+                try:
+                    env = {p: f"(IParam {q(p)})" for p, _, _ in params}
+                    init = InitTranslator(w, ci).frame(owner, fn, env)
+                except TranslationError as e:
+                    # the body is not recognised: the pinned commit's program is kept, provided the parameters are the same
+                    if b is None or b["params"] != plits or not b["has_init"]:
+                        raise
+                    init = b["init"]
+                    errors.append(soft(e.where, fn, e))
+            if collect is not None:
+                collect["classes"][qual] = {"params": plits, "init": init, "repr": rr, "has_init": has_init}
             bases = [c.qual for c in w.mro(ci)[1:]]
             classes.append(
                 f"  {{| cs_name := {q(qual)}; cs_module := {q(ci.module)}; cs_bases := {clist(q(b) for b in bases)};\n"
@@ -958,6 +1166,20 @@ def run(out_dir: str) -> list[TranslationError]:
 
 
 if __name__ == "__main__":
+    if "--write-baseline" in sys.argv:
+        import json
+
+        w = World()
+        w.load()
+        got: dict = {"classes": {}, "enums": {}}
+        text, errs = generate(w, collect=got)
+        if errs:
+            for e in errs:
+                print("TRANSLATION-ERROR", e)
+            sys.exit(1)
+        json.dump(got, open(BASELINE_PATH, "w"), indent=1, sort_keys=True)
+        print("baseline written:", BASELINE_PATH, len(got["classes"]), "classes")
+        sys.exit(0)
     if "--pins" in sys.argv:
         w = World()
         w.load()
